@@ -125,7 +125,7 @@ ELEMENTWISE_ID_METHODS = {"ravel", "flatten", "squeeze", "copy", "astype", "resh
 class Sym:
     """Symbolic evaluator of typhon functions."""
 
-    def __init__(self, repo, opaque=(), hooks=None, max_depth=6, elementwise=False):
+    def __init__(self, repo, opaque=(), hooks=None, max_depth=6, elementwise=False, decide=None):
         self.repo = repo
         self.const = Const(repo)
         self.opaque = set(opaque)       # function names kept as opaque atoms
@@ -136,6 +136,7 @@ class Sym:
         self._ci = 0
         self.trace = []
         self.guards = []
+        self.decide = decide            # callable(test source text) -> True/False/None
 
     # -- entry points
     def call(self, rel, fname, *args, **kw):
@@ -203,6 +204,10 @@ class Sym:
             if isinstance(st, (ast.Pass, ast.Import, ast.ImportFrom, ast.Assert)):
                 continue
             if isinstance(st, ast.Assign):
+                if len(st.targets) == 1 and isinstance(st.targets[0], ast.Name):
+                    # lazy: evaluated when (and if) the name is used
+                    env[st.targets[0].id] = _Lazy(self, st.value, dict(env), func, depth)
+                    continue
                 v = self.expr(st.value, env, func, depth)
                 for t in st.targets:
                     self.assign(t, v, env, func, depth)
@@ -228,7 +233,7 @@ class Sym:
                 if r is not _NORETURN:
                     return r
                 continue
-            if isinstance(st, ast.Try):
+            if isinstance(st, (ast.Try, ast.With)):
                 r = self.block(st.body, env, func, depth)
                 if r is not _NORETURN:
                     return r
@@ -250,6 +255,8 @@ class Sym:
     def truth(self, test, env, func, depth):
         """Decide a test statically if possible, else consume a choice."""
         v = self.static_truth(test, env, func, depth)
+        if v is None and self.decide is not None:
+            v = self.decide(norm(test))
         if v is None:
             if self._ci < len(self.choices):
                 v = self.choices[self._ci]
@@ -304,7 +311,11 @@ class Sym:
             return _num(n.value)
         if isinstance(n, ast.Name):
             if n.id in env:
-                return env[n.id]
+                v = env[n.id]
+                if isinstance(v, _Lazy):
+                    v = v.force()
+                    env[n.id] = v
+                return v
             return self.global_name(n.id, func)
         if isinstance(n, ast.Attribute):
             d = dotted(n)
@@ -404,7 +415,11 @@ class Sym:
         d = dotted(n.func)
         last = d.split(".")[-1] if d else (n.func.attr if isinstance(n.func, ast.Attribute) else None)
         if isinstance(n.func, ast.Name) and n.func.id in env:
-            return "value", env[n.func.id], last
+            v = env[n.func.id]
+            if isinstance(v, _Lazy):
+                v = v.force()
+                env[n.func.id] = v
+            return "value", v, last
         if last in self.hooks:
             return "hook", self.hooks[last], last
         if d:
@@ -515,6 +530,8 @@ class Sym:
             if a.cols == 1 or a.rows == 1:
                 return sp.diag(*list(a))
             return sp.Matrix([a[i, i] for i in range(min(a.rows, a.cols))])
+        if last == "clip" and len(args) == 3:
+            return sp.Max(args[1], sp.Min(args[2], args[0]))
         if last == "where" and len(args) == 3:
             return sp.Piecewise((args[1], args[0]), (args[2], True))
         if last in ("maximum", "fmax") and len(args) == 2:
@@ -524,6 +541,19 @@ class Sym:
         if self.elementwise and last in ("mean", "nanmean", "sum", "nansum", "average", "median", "nanmedian") and args:
             return args[0]
         raise Unsupported("numpy call %s" % norm(n)[:60])
+
+
+class _Lazy:
+    def __init__(self, ev, node, env, func, depth):
+        self.ev, self.node, self.env, self.func, self.depth = ev, node, env, func, depth
+        self.done = False
+        self.value = None
+
+    def force(self):
+        if not self.done:
+            self.value = self.ev.expr(self.node, self.env, self.func, self.depth)
+            self.done = True
+        return self.value
 
 
 class ShapeError(AnalysisError):
@@ -578,7 +608,7 @@ def is_zero(e, assume_trig=()):
 _PRIMES = [2, 3, 5, 7, 11, 13, 17, 19, 23, 29, 31, 37, 41, 43, 47, 53, 59, 61]
 
 
-def sample_nonzero(e, tries=4):
+def sample_nonzero(e, tries=10):
     syms = sorted(e.free_symbols, key=lambda s: s.name)
     funcs = [f for f in e.atoms(sp.Function) if isinstance(f, sp.core.function.AppliedUndef)]
     for t in range(tries):
@@ -586,6 +616,8 @@ def sample_nonzero(e, tries=4):
         for i, s in enumerate(syms):
             p, q = _PRIMES[(i + t) % len(_PRIMES)], _PRIMES[(i + 2 * t + 5) % len(_PRIMES)]
             sub[s] = sp.Rational(p, q) if t else sp.Rational(p + 1, p)
+            if t >= 4:
+                sub[s] = sub[s] ** (1 if (i + t) % 3 else 3) * (7 if (i + t) % 2 else sp.Rational(1, 7))
             if not s.is_positive and (t + i) % 2 == 1:
                 sub[s] = -sub[s]
         try:
